@@ -175,7 +175,7 @@ CHECKS["C05"] = dict(
 
 CHECKS["C01"] = dict(
     level_text="Two depths, both decided by the solver over all inputs inside the bounds: (a) the real doubleWalkDiff (three goroutines, channels, errgroup) on arbitrary parent-closed tree pairs with symbolic stats: applying the emitted change stream to the lower tree yields the upper tree, with exactly one change per differing path; (b) the real Send (on-disk source through NewFS/Walk/mkstat) and the real Receive connected by an in-memory stream on the model file system: whenever both return success the destination equals the source tree (types, bytes, permission/special bits, uid/gid, symlink targets, device numbers, hard-link groups, mtimes of non-directories and created directories) for every source tree and dirty prior destination explored.",
-    level_note="Bounds: (a) universes of 3 (quick) / 4 and 6 (thorough) paths including names that sort differently bytewise and path-wise (a, a/b, a-b), symbolic Mode and Size (plus Uid, ModTime in the FULL variant); (b) source trees over {d, d/f, e, h(hard link), l(symlink), p(fifo/char device)} with symbolic permission/special bits, uid, gid, files of 0..1 symbolic bytes, mtimes from 2 values, prior destination in {empty, stale file, dir where the source has a file, file where the source has a dir, symlink + nested stale content}. Merge mode, unprivileged receivers, 32 KiB chunk boundaries and synthetic sources are outside. " + FS_TRUST + BASE_TRUST,
+    level_note="Bounds: (a) universes of 3 (quick) / 4 and 6 (thorough) paths including names that sort differently bytewise and path-wise (a, a/b, a-b), symbolic Mode and Size (plus Uid, ModTime in the FULL variant); (b) source trees over {d, d/f, e, h(hard link), l(symlink), p(fifo/char device)} with symbolic permission/special bits, uid, gid, files of 0..1 symbolic bytes, mtimes from 2 values, prior destination in {empty, stale file, dir where the source has a file, file where the source has a dir, symlink + nested stale content}. Unprivileged receivers, 32 KiB chunk boundaries and synthetic sources are outside. " + FS_TRUST + BASE_TRUST,
     assumptions=["one schedule (the stat->diff->writer pipeline is a Kahn network: results, not liveness, are schedule independent)", "mtimes are drawn from a small concrete set so that ns arithmetic stays concrete"],
     obligations=[
         ob("VH_C01_diff", dict(U=0), covers=["added", "removed", "unchanged", "modified"], bounds="universe {a, a/b, a-b}"),
@@ -189,6 +189,8 @@ CHECKS["C01"] = dict(
         ob("VH_C01_e2e", dict(S=2, D=6, MAXB=0, NZ=1), Q, covers=["done"], bounds="source {d, d/f, l -> d/f or d}, every dirty prior destination incl. a directory where the source has the symlink", max_steps=5000000),
         ob("VH_C01_e2e", dict(S=4, D=1, MAXB=1, NZ=1), Q, covers=["done"], bounds="source {d, d/f, p(fifo/char device)}, fresh destination, non-zero ids", max_steps=5000000),
         ob("VH_C01_e2e", dict(S=0, D=2, MAXB=1, NZ=1, X=1), Q, covers=["done"], bounds="source {d, d/f} with optional user.* xattrs on both, prior destination empty or stale file", max_steps=5000000),
+        ob("VH_C01_e2e", dict(S=8, D=6, MAXB=0, NZ=1, MERGE=1), Q, covers=["done", "merge", "kept-stale"], bounds="merge mode: source {d, d/f, e}, every dirty prior destination; result = overlay, nothing deleted that the source does not replace", max_steps=5000000),
+        ob("VH_C01_e2e", dict(S=10, D=6, MAXB=1, NZ=1, MERGE=1), T, covers=["done", "merge", "kept-stale"], bounds="merge mode: source {d, d/f, e, l}", max_steps=5000000),
         ob("VH_C01_e2e", dict(S=15, D=6, MAXB=1, NZ=1), T, covers=["done"], bounds="source {d, d/f, e, h, l, p}, every dirty prior destination, non-zero ids", max_steps=5000000),
         ob("VH_C01_e2e", dict(S=8, D=2, MAXB=1, NZ=0), T, covers=["done"], bounds="source {d, d/f, e}, fully symbolic ids", max_steps=5000000),
     ],
